@@ -131,7 +131,7 @@ func listClass(list []string) string {
 	var c string
 	switch {
 	case star && pos+neg > 0:
-		c = "star+others"
+		c = "star-with-others"
 	case star:
 		c = "star"
 	case pos > 0 && neg > 0:
@@ -145,19 +145,20 @@ func listClass(list []string) string {
 	default:
 		c = "empty"
 	}
-	if emptystr {
+	if star {
+		return c // '*' decides; the other entries' shapes do not discriminate
+	}
+	// one feature at most, the most specific first (keeps the signature space small)
+	switch {
+	case emptystr:
 		c += "+emptystr"
-	}
-	if baredash {
+	case baredash:
 		c += "+baredash"
-	}
-	if glob {
+	case glob:
 		c += "+glob"
-	}
-	if starsub {
+	case starsub:
 		c += "+starsub"
-	}
-	if dup {
+	case dup:
 		c += "+dup"
 	}
 	return c
@@ -211,19 +212,53 @@ func direction(raw, stored bool) string {
 	return "stored-matches,submitted-does-not"
 }
 
-// divergence names the field responsible for RuleMatches(raw) != RuleMatches(stored) on q.
-func divergence(raw, st *proxyv1alpha1.DispatchPolicyRule, q *Req) string {
+// divergence names the field responsible for RuleMatches(raw) != RuleMatches(stored) on q and the shape of a MINIMAL
+// sub-list of that field which still diverges on q (entries are removed greedily, re-running the real Admit on a
+// match-all rule carrying only that sub-list), so that one defect of the normaliser yields few signatures.
+func divergence(a *admitter, raw, st *proxyv1alpha1.DispatchPolicyRule, q *Req) (sig string, detail string) {
 	if !equalSAs(raw.ServiceAccounts, st.ServiceAccounts) {
-		return "field=serviceAccounts/changed"
+		return "field=serviceAccounts/changed", fmt.Sprintf("serviceAccounts %v stored as %v", raw.ServiceAccounts, st.ServiceAccounts)
 	}
 	for _, f := range fields {
-		a, rel := fieldVerdict(f.name, raw, q)
-		b, _ := fieldVerdict(f.name, st, q)
-		if rel && a != b {
-			return "field=" + f.name + "/" + listClass(*f.get(raw))
+		x, rel := fieldVerdict(f.name, raw, q)
+		y, _ := fieldVerdict(f.name, st, q)
+		if !rel || x == y {
+			continue
 		}
+		full := *f.get(raw)
+		diverges := func(l []string) bool {
+			ru := matchAllRule()
+			*f.get(&ru) = l
+			if f.name == "users" {
+				ru.ServiceAccounts = raw.ServiceAccounts
+			}
+			uc := &proxyv1alpha1.UpstreamCluster{ObjectMeta: metav1.ObjectMeta{Name: "c17min"}}
+			uc.Spec.DispatchPolicies = []proxyv1alpha1.DispatchPolicy{{Rules: []proxyv1alpha1.DispatchPolicyRule{ru}}}
+			out, err, p := a.admit(uc, nil)
+			if err != nil || p != nil || len(out.Spec.DispatchPolicies) != 1 || len(out.Spec.DispatchPolicies[0].Rules) != 1 {
+				return false
+			}
+			m1, _ := fieldVerdict(f.name, &ru, q)
+			m2, _ := fieldVerdict(f.name, &out.Spec.DispatchPolicies[0].Rules[0], q)
+			return m1 == x && m2 == y
+		}
+		min := append([]string(nil), full...)
+		if diverges(min) {
+			for changed := true; changed; {
+				changed = false
+				for i := range min {
+					c := append(append([]string(nil), min[:i]...), min[i+1:]...)
+					if len(c) > 0 && diverges(c) {
+						min, changed = c, true
+						break
+					}
+				}
+			}
+		}
+		return "field=" + f.name + "/" + listClass(min),
+			fmt.Sprintf("%s list %q is stored as %q (smallest sub-list that still diverges on this request: %q)", f.name, full, *f.get(st), min)
 	}
-	return "combination"
+	return "combination", "no single field's verdict differs"
 }
 
 func equalSAs(a, b []proxyv1alpha1.ServiceAccountRef) bool {
@@ -438,9 +473,10 @@ func perField(r *vkit.R, a *admitter) {
 					matched++
 				}
 				if rm != sm {
-					sig := fmt.Sprintf("C17/match/%s/%s", divergence(raw, stored, &q), direction(rm, sm))
-					r.Violation(sig, fmt.Sprintf("%s list %q (serviceAccounts %v) is stored as %q; request %+v: submitted rule matches=%v, stored rule matches=%v",
-						sl.field, l, raw.ServiceAccounts, *fieldByName(sl.field).get(stored), q, rm, sm),
+					d, detail := divergence(a, raw, stored, &q)
+					sig := fmt.Sprintf("C17/match/%s/%s", d, direction(rm, sm))
+					r.Violation(sig, fmt.Sprintf("%s; serviceAccounts %v; request %+v: submitted rule matches=%v, stored rule matches=%v (submitted rule %s, stored rule %s)",
+						detail, raw.ServiceAccounts, q, rm, sm, storedForm(raw), storedForm(stored)),
 						fieldWitness{Field: sl.field, Submitted: *raw, Stored: *stored, Request: q, RawMatch: rm, StMatch: sm})
 				}
 			}
@@ -457,15 +493,6 @@ func perField(r *vkit.R, a *admitter) {
 	})
 	r.Set("per_field_exhaustive_max_len", maxLen)
 	r.Set("per_field_lists", len(lists))
-}
-
-func fieldByName(n string) fieldAcc {
-	for _, f := range fields {
-		if f.name == n {
-			return f
-		}
-	}
-	return fields[0]
 }
 
 // admitJudged runs Admit and applies the judgements that do not need probes: panic, error, structure preserved.
@@ -538,7 +565,7 @@ func idempotence(r *vkit.R, a *admitter, st *proxyv1alpha1.UpstreamCluster, clas
 				for _, f := range fields {
 					l1, l2 := *f.get(&p1.Rules[j]), *f.get(&p2.Rules[j])
 					if strings.Join(l1, "\x01") != strings.Join(l2, "\x01") || len(l1) != len(l2) {
-						what = "field=" + f.name + "/" + listClass(l1)
+						what = "field=" + f.name + "/" + strings.SplitN(listClass(l1), "+", 2)[0]
 						break
 					}
 				}
@@ -729,7 +756,7 @@ func ruleNontrivial(ru *proxyv1alpha1.DispatchPolicyRule) bool {
 }
 
 func wholeRules(r *vkit.R, a *admitter) {
-	nClusters := r.N(20000, 1500000)
+	nClusters := r.N(20000, 1000000)
 	nProbes := r.N(40, 100)
 	r.Set("whole_rule_clusters", nClusters)
 	r.Set("probes_per_cluster", nProbes)
@@ -805,9 +832,10 @@ func wholeRules(r *vkit.R, a *admitter) {
 						unmatched++
 					}
 					if rm != sm {
-						sig := fmt.Sprintf("C17/match/%s/%s", divergence(raw, stored, q), direction(rm, sm))
-						r.Violation(sig, fmt.Sprintf("rule %s is stored as %s (%s); request %+v: submitted rule matches=%v, stored rule matches=%v",
-							storedForm(raw), storedForm(stored), class, *q, rm, sm),
+						d, detail := divergence(a, raw, stored, q)
+						sig := fmt.Sprintf("C17/match/%s/%s", d, direction(rm, sm))
+						r.Violation(sig, fmt.Sprintf("%s; request %+v: submitted rule matches=%v, stored rule matches=%v (%s; submitted rule %s, stored rule %s)",
+							detail, *q, rm, sm, class, storedForm(raw), storedForm(stored)),
 							fieldWitness{Field: "rule", Submitted: *raw, Stored: *stored, Request: *q, RawMatch: rm, StMatch: sm})
 					}
 				}
